@@ -195,6 +195,14 @@ def rule_size_overflow(ctx, p, cfg, rid="L2"):
 def run_cfg(ctx, p, cfg):
     rule_size_table(ctx, p, cfg, "L1")
     rule_size_overflow(ctx, p, cfg, "L2")
+    with ctx.rule("L7", "the literal parsers cannot panic", cfg) as r:
+        # junk is rejected with an error: no arithmetic, slicing or unwrap in the two visitors (and what they call) may fail instead
+        from l4sa import panics
+        ents = sorted(x for x in p.fns if (x.startswith(SIZE_V) or x.startswith(TIME_V)) and p.fns[x].kind != "Closure")
+        r.floor("visitor-methods", len(ents), 4)
+        cone = p.cone(ents, cut_traits=())
+        st = panics.check_cone(r, p, cone, "C20")
+        ctx.extra.setdefault("panic_inventory", {})[cfg] = dict(st, cone=len(cone))
 
     with ctx.rule("L3", "numbers", cfg) as r:
         f = p.fn_closure_calls(SIZE_V + "visit_str")
